@@ -128,6 +128,9 @@ func c15Run(in *c15Input) Res {
 				okErr(rs.Set(s(1), unhx(s(2))))
 			case "setlog":
 				okErr(rs.SetWithLog(s(1), unhx(s(2)), &ref.Reflog{NewOID: unhx(s(2)), AuthorName: "a", AuthorEmail: "e", Time: time.Unix(1700000000, 0), Action: "act", Message: s(3)}))
+			case "setlogold":
+				// the caller supplies a stale old value: the store must log the value the ref really held
+				okErr(rs.SetWithLog(s(1), unhx(s(2)), &ref.Reflog{OldOID: unhx(s(4)), NewOID: unhx(s(2)), AuthorName: "a", AuthorEmail: "e", Time: time.Unix(1700000000, 0), Action: "act", Message: s(3)}))
 			case "setlogfail":
 				// the reflog insert fails (trigger): ref and log are one SQL transaction, nothing may change
 				if sqlDB == nil {
@@ -299,6 +302,8 @@ func genC15(r *rand.Rand, thorough bool) *c15Input {
 			op = []interface{}{"setlog", name(), c15Sum(r), "m" + itoa(i)}
 			if r.Intn(8) == 0 {
 				op[0] = "setlogfail"
+			} else if r.Intn(6) == 0 {
+				op = []interface{}{"setlogold", op[1], op[2], op[3], c15Sum(r)}
 			}
 		case x < 10:
 			op = []interface{}{"get", name()}
